@@ -86,6 +86,30 @@ pub fn common(_case: &Case, out: &Outcome, h: &Hist) -> Vec<Violation> {
     v
 }
 
+/// Task memory: every task allocated by the executors' task module during the execution has been
+/// released exactly once when the execution ends (counters of the `TaskAlloc` / `TaskDealloc`
+/// hooks placed at the `alloc` / `dealloc` calls). Not judged when a timed-out step of the
+/// single-threaded executor was abandoned on its helper thread, which may outlive the check.
+pub fn task_memory(case: &Case, out: &Outcome, h: &Hist) -> Vec<Violation> {
+    let mut v = Vec::new();
+    if out.failure.is_some() {
+        return v;
+    }
+    let Some(info) = out.info.as_ref() else { return v };
+    let abandoned = case.cfg.timeout_set && case.cfg.threads <= 1 && h.trace.iter().any(|(_, t)| matches!(t, crate::ctx::TraceEv::TimeoutFired));
+    if abandoned || info.probes.len() <= nexosim::verif::Probe::TaskDealloc as usize {
+        return v;
+    }
+    let a = info.probes[nexosim::verif::Probe::TaskAlloc as usize];
+    let d = info.probes[nexosim::verif::Probe::TaskDealloc as usize];
+    if d < a {
+        v.push(Violation::new("task_memory_leaked", format!("{} tasks were allocated but only {} released by the end of the execution", a, d)));
+    } else if d > a {
+        v.push(Violation::new("task_memory_double_free", format!("{} tasks were allocated but {} releases were made", a, d)));
+    }
+    v
+}
+
 /// Mailbox index (creation order = node index) of a simulator channel id.
 pub fn chan_to_node(case: &Case, chan: usize) -> Option<usize> {
     if chan == 0 {
